@@ -81,8 +81,11 @@ SCENARIOS = [
          "del": ["p1|a1", "p1|a2", "p1|a3", "p1|a0"]}, {"a": "StepAll"}]},
     # the server's operator removes a publisher that has objects and adds
     # it again (two stores: access and content)
-    {"id": "pubd", "keys": 280, "top": TOP, "prefix": WITH_ROA, "chain": [
-        {"a": "PubRemove", "c": "B"}, {"a": "StepAll"},
+    {"id": "pubrm", "keys": 280, "top": TOP, "prefix": WITH_ROA, "chain": [
+        {"a": "PubRemove", "c": "B"}, {"a": "StepAll"}]},
+    {"id": "pubadd", "keys": 320, "top": TOP,
+     "prefix": WITH_ROA + [{"a": "PubRemove", "c": "B"}, {"a": "Pump"}],
+     "chain": [
         {"a": "PubAdd", "c": "B"}, {"a": "RepoSyncAll"}, {"a": "StepAll"},
         # (one more publication, so that the files left stale by a cut in
         # the re-publication above - a known finding - are written again)
@@ -546,7 +549,11 @@ def run(tier, seed):
         "relying-party walk, and byte equality of the served RRDP snapshot "
         "and rsync tree with the repository content of the same run",
     ]
-    model_bad = model_run(chk)
+    if os.environ.get("VERIF_SKIP_MC"):
+        # (mutation runs: the model-only part does not depend on the code)
+        vlib.log("model-only part skipped (VERIF_SKIP_MC)")
+    else:
+        model_run(chk)
     scenarios = SCENARIOS
     only = os.environ.get("VERIF_C08_SCEN")
     if only:
